@@ -141,7 +141,10 @@ def _cut_into(rng, layout, lines, my_path, budget, ranges_fn):
     frag_path, place = layout.new_path(rng)
     if layout.styled:
         layout.ref_styles[frag_path] = rng.choice(
-            ["rel", "rel", "rel", "dot", "abs", "url"])
+            ["rel", "rel", "rel", "dot", "url"] +
+            # (a bare absolute path cannot be written when it contains
+            # characters that mean something in a URL reference)
+            ([] if layout.styled == "noabs" else ["abs"]))
     frag = list(lines[i:j])
     budget -= 1
     layout.cuts.append({"file": frag_path, "place": place,
